@@ -41,8 +41,41 @@ def gen_script(rng, nclients, length, p_shut, churn):
     return ops
 
 
+def gen_unreg_race(rng):
+    """more busy clients than pool threads; clients submit again while one of their Messages is inside its handler
+    (deferred) while other clients are pending; SetThreadPool(NULL) is issued while Messages are deferred / pending;
+    then the handlers complete in a random order.  (The wake-up of a blocked UnregisterClient() must wait for the
+    being-handled flag AND the pending queue AND the deferred queue.)"""
+    maxt = rng.choice([1, 1, 2, 2, 3])
+    nclients = rng.choice([3, 3, 4, 5])
+    ops = ["r:%d" % c for c in range(nclients)]
+    order = list(range(nclients)); rng.shuffle(order)
+    for c in order:                                       # first wave: the first maxt clients get a thread, the rest wait
+        ops.append("s:%d" % c)
+    for _ in range(rng.choice([1, 2, 3, 4])):             # more work for clients that are being handled or pending
+        ops.append("s:%d" % rng.choice(order))
+    unreg = rng.sample(order, rng.choice([1, 1, 2]))
+    for c in unreg:
+        ops.append("u:%d" % c)
+    for _ in range(rng.choice([4, 8, 12, 16])):
+        r = rng.random()
+        if r < 0.75:
+            ops.append("g:%d" % rng.choice(order))
+        elif r < 0.9:
+            ops.append("s:%d" % rng.choice(order))
+        else:
+            c = rng.choice(order)
+            ops.append(rng.choice(["u:%d", "r:%d"]) % c)
+    return "n=%d|%s" % (maxt, ";".join(ops))
+
+
 DIRECTED = [
     # (maxThreads, script)
+    (1, "r:0;r:1;s:0;s:0;s:1;u:0;g:0;g:1;g:0"),                          # A deferred + B pending + A unregistering: the freed thread takes B, A must keep waiting
+    (1, "r:0;r:1;r:2;s:0;s:1;s:2;s:0;s:0;u:0;g:0;g:1;g:2;g:0;g:0"),
+    (2, "r:0;r:1;r:2;r:3;s:0;s:1;s:2;s:3;s:0;s:1;u:0;u:1;g:0;g:1;g:2;g:3;g:0;g:1"),
+    (2, "r:0;r:1;r:2;s:0;s:1;s:2;s:2;s:0;u:0;g:0;g:1;g:2;g:0;g:2"),
+    (1, "r:0;r:1;s:0;s:1;s:1;u:1;g:0;g:1;g:1"),                          # unregistering client is only pending, never yet handled
     (1, "r:0;s:0;s:0;s:0;g:0;g:0;g:0"),                                  # deferred while handled, promoted on finish
     (1, "r:0;r:1;r:2;s:0;s:1;s:2;s:1;g:0;g:1;g:2;g:1"),                  # one thread, three clients: pending FIFO over clients
     (2, "r:0;r:1;r:2;s:0;s:1;s:2;s:0;g:1;g:0;g:2;g:0"),                  # pool smaller than the client count
@@ -106,6 +139,8 @@ class CHECK(vlib.Check):
             churn = rng.choice([0.0, 0.04, 0.10])
             stream = "shutdown" if p_shut else ("churn" if churn else "steady")
             out.append((stream, "n=%d|%s" % (maxt, ";".join(gen_script(rng, nclients, length, p_shut, churn)))))
+        for i in range(300 if tier == "quick" else 3000):
+            out.append(("unreg-race", gen_unreg_race(rng)))
         for (maxt, body) in DIRECTED:
             out.append(("directed", "n=%d|%s" % (maxt, body)))
             for m2 in (1, 2, 3):
